@@ -16,4 +16,3 @@ CONSTANTS
   RandCount = 3
   SelfLen = 0
 INVARIANTS Emit EmitHdr
-VIEW View
